@@ -212,6 +212,14 @@ class Check:
             if r["status"] == "error":
                 self.machinery_errors.append(r["detail"])
                 continue
+            if r["status"] == "truncated" and _.get("must_complete"):
+                # a family built to be decided completely (sizes within the documented limits)
+                if r.get("why") in ("budget", "cyclic", "unspec"):
+                    self.machinery_errors.append("family %s: the specification could not decide scenario %s (%s)" % (name, rec.get("id"), r.get("why")))
+                    continue
+                r = dict(r)
+                r.update(status="violation", kind="refused", detail="a program within the documented size limits was refused (%s)" % r.get("why"),
+                         op={"op": "load"}, expected=None, observed=None)
             if r["status"] == "truncated":
                 fam["truncated"] += 1
                 self.truncated[r.get("why")] += 1
